@@ -34,11 +34,18 @@ def _load_known():
 KNOWN = _load_known()
 
 
+def jdump(obj):
+    try:
+        return json.dumps(obj, sort_keys=True, ensure_ascii=False, default=str)
+    except TypeError:  # mixed int/str keys
+        return json.dumps(obj, sort_keys=False, ensure_ascii=False, default=str)
+
+
 def field_text(case, field):
     v = case.get(field) if isinstance(case, dict) else None
     if isinstance(v, str):
         return v
-    return json.dumps(v, sort_keys=True, ensure_ascii=False, default=str)
+    return jdump(v)
 
 
 def match_known(prop, oracle, case):
@@ -57,7 +64,7 @@ def match_known(prop, oracle, case):
 
 def h64(obj) -> int:
     if not isinstance(obj, (bytes, str)):
-        obj = json.dumps(obj, sort_keys=True, ensure_ascii=False, default=str)
+        obj = jdump(obj)
     if isinstance(obj, str):
         obj = obj.encode("utf-8", "surrogatepass")
     return int.from_bytes(hashlib.blake2b(obj, digest_size=8).digest(), "big")
@@ -112,7 +119,7 @@ class Acc:
         self.n += other.n
         for o, lst in other.viol.items():
             self.viol[o].extend(lst)
-            self.viol[o].sort(key=lambda v: (len(json.dumps(v["case"], default=str)), json.dumps(v["case"], sort_keys=True, default=str)))
+            self.viol[o].sort(key=lambda v: (len(json.dumps(v["case"], default=str)), jdump(v["case"])))
             del self.viol[o][MAX_KEEP:]
         self.viol_count.update(other.viol_count)
         self.known.update(other.known)
@@ -154,7 +161,7 @@ class Run:
         bad_harness = False
         rdir = os.path.join(VERIF, "replays", self.prop)
         for oracle in sorted(acc.viol):
-            lst = sorted(acc.viol[oracle], key=lambda v: (len(json.dumps(v["case"], default=str)), json.dumps(v["case"], sort_keys=True, default=str)))
+            lst = sorted(acc.viol[oracle], key=lambda v: (len(json.dumps(v["case"], default=str)), jdump(v["case"])))
             for v in lst[:5]:
                 if replay_fn is not None:
                     try:
